@@ -314,6 +314,11 @@ func (d *Data) streamRawBlock(ctx *datastore.VersionedCtx, w http.ResponseWriter
 	if err != nil {
 		return err
 	}
+	if block == nil {
+		// nothing stored at this block: every voxel is background, as in multi-block reads
+		_, err := w.Write(make([]byte, d.BlockSize().Prod()*8))
+		return err
+	}
 	if !supervoxels {
 		mapping, err := getMapping(d, ctx.VersionID())
 		if err != nil {
